@@ -75,7 +75,9 @@ class G:
         if r < 0.9:
             return ('aset', 'arr', self.r.choice([('s', 'k1'), ('s', 'k2'), ('v', 'x')]), self.arith(1, vars_ + ['x']))
         if r < 0.95 and d > 0:
-            return ('forin', 'e', [('n', 1), ('n', 2), ('v', 'x')], [('print', 'e ', ('v', 'e'))])
+            items = self.r.choice([[('n', 1), ('n', 2), ('v', 'x')], [('n', 0), ('n', 1), ('n', 2)], [('n', 0)], [('s', ''), ('s', 'q')],
+                                   [('v', 'x'), ('n', 0)], [('n', 0), ('v', 'y')]])
+            return ('forin', 'e', items, [('print', 'e ', ('v', 'e'))])
         return ('print', 'a ', ('arr', 'arr', self.r.choice([('s', 'k1'), ('s', 'k2'), ('v', 'x')])))
 
 
@@ -356,6 +358,9 @@ class C20(framework.PropertyCheck):
             case = {'prog': _tolist(prog), 'seed': rng.randrange(1 << 30)}
             if i % (15 if tier == 'quick' else 40) == 7:
                 case['cli'] = True
+                # a statement far longer than a text line, with blanks inside its string
+                words = ' '.join(g.r.choice(['alpha', 'beta', 'gamma', 'delta', 'x', 'yz']) for _ in range(g.r.randint(25, 40)))
+                case['prog']['end'].append(_tolist(('print', words + ' ', ('n', 1))))
             yield case
 
     def trace(self, case):
